@@ -23,9 +23,7 @@ fn before(ra: usize, ta: usize, rb: usize, tb: usize) -> bool {
     ra < rb || (ra == rb && ta < tb)
 }
 fn small() -> f64 {
-    let a = any_u8();
-    assume(a < 4);
-    a as f64
+    any_usize_in(0, 4) as f64
 }
 #[derive(Clone, Copy)]
 struct Snap {
